@@ -31,6 +31,7 @@ def _engine_for(pid: str):
     import importlib
     table = {
         "C01": "check_interval", "C05": "check_interval", "C13": "check_interval", "C14": "check_interval",
+        "C19": "check_generic",
     }
     name = table.get(pid)
     return importlib.import_module("harness." + name) if name else None
